@@ -186,6 +186,22 @@ Theorem C15_key_allowed_iff :
 Proof. exact key_allowed_reachable. Qed.
 Print Assumptions C15_key_allowed_iff.
 
+(* A removed (or never allowed) key stays out: once a key is not allowed for a topic at an issuer,
+   every claim presented with that key for that topic is rejected through every later history that
+   does not allow_key it for that topic again.                                                   *)
+Theorem C15_key_removal_persists :
+  forall c w (calls : list call) i pk scheme t,
+    forallb (fun k => negb (match k with
+                            | AllowKey i' pk' _ sc' t' => N.eqb i' i && bytes_eqb pk' pk && (sc' =? scheme) && (t' =? t)
+                            | _ => false end)) calls = true ->
+    (exists s, the_issuer w i = Ok s /\ is_key_allowed_for_topic s pk scheme t = false) ->
+    let w' := run c w calls in
+    (exists s, the_issuer w' i = Ok s /\ is_key_allowed_for_topic s pk scheme t = false) /\
+    forall d sig data sd, extract_sig scheme sig = Ok sd -> sd_pk sd = pk ->
+      call_is_claim_valid c w' i d t scheme sig data = Fail.
+Proof. exact key_removal_persists. Qed.
+Print Assumptions C15_key_removal_persists.
+
 (* A nonce bump invalidates: in any reachable state, after a successful
    invalidate_claim_signatures(identity, topic) every claim of that identity and topic that the
    issuer confirmed before is rejected - for a signature scheme in which a signature verifies for
@@ -239,6 +255,27 @@ Theorem C15_identifier_injective :
 Proof. exact identifier_injective. Qed.
 Print Assumptions C15_identifier_injective.
 
+(* "over this network": messages built for different networks (ids of equal length) differ as well *)
+Theorem C15_message_injective_net :
+  forall xdr : addr -> bytes,
+    (forall a b s s', xdr a ++ s = xdr b ++ s' -> a = b) ->
+    forall net i d t n data net' i' d' t' n' data',
+      length net = length net' ->
+      0 <= t <= MAXU32 -> 0 <= t' <= MAXU32 -> 0 <= n <= MAXU32 -> 0 <= n' <= MAXU32 ->
+      build_claim_message net (xdr i) (xdr d) t n data = build_claim_message net' (xdr i') (xdr d') t' n' data' ->
+      net = net' /\ i = i' /\ d = d' /\ t = t' /\ n = n' /\ data = data'.
+Proof. exact message_injective_net. Qed.
+Print Assumptions C15_message_injective_net.
+
+(* the pre-image of a claim id, issuer_xdr || topic_be, determines issuer and topic (the model
+   represents keccak256 of it by the pair) *)
+Theorem C15_claim_id_preimage_injective :
+  forall xdr : addr -> bytes,
+    (forall a b s s', xdr a ++ s = xdr b ++ s' -> a = b) ->
+    forall i t i' t', 0 <= t <= MAXU32 -> 0 <= t' <= MAXU32 -> xdr i ++ be32 t = xdr i' ++ be32 t' -> i = i' /\ t = t'.
+Proof. exact claim_id_preimage_injective. Qed.
+Print Assumptions C15_claim_id_preimage_injective.
+
 (* expiration metadata: decoding inverts encoding, and a claim is expired from valid_until on *)
 Theorem C15_expiration_roundtrip :
   forall created_at valid_until payload d,
@@ -260,15 +297,20 @@ Proof. exact signature_layouts. Qed.
 Print Assumptions C15_signature_layouts.
 
 (* ------------------------------------------------------------------------------------------ *)
-(* The executable monitor of Run/C15.v (the property over implementation observations only) accepts
-   every run of the model, and the model does not differ from itself; [wf_call] = topics that
-   become required and issuers that become trusted belong to the universe the header declares.   *)
+(* The executable monitor of Run/C15.v accepts every run of the model and the model does not differ
+   from itself.  The monitor is the property over implementation observations only: state clauses
+   (shape of the observation, verify_identity iff, what each issuer confirms and answers about every
+   held claim - computed from the HISTORY of successful allow_key / remove_key / nonce bumps /
+   revocations, not from the issuer's own getters, which are checked against it -, registry
+   coherence, identity registry) and call clauses (clock; the answer of every call the property or
+   one of its getters determines; a failing or read-only call changes nothing stored; a successful
+   call changes exactly what its kind may).  [observe_model h calls] is the model's trace in the
+   shape the harness prints: every item carries its own list of revocation queries.
+   [hdr_ok]: non-empty universe; [wf_call]: the accounts, issuers, topics and claim ids a call names
+   belong to the universe the header declares (checked by the monitor itself on a real trace). *)
 Theorem C15_monitor_accepts_model :
-  forall (h : hdr) (calls : list call),
-    forallb (fun k => match k with
-                      | AddTopic _ t => mem_z t (h_topics h)
-                      | AddIssuer _ i _ => mem_a i (h_iaddrs h)
-                      | _ => true end) calls = true ->
+  forall (h : hdr) (calls : list (call * list rkey)),
+    hdr_ok h = true -> calls <> [] -> forallb (fun kq => wf_call h (fst kq)) calls = true ->
     check (observe_model h calls) = (0%N, 0%N, 0%N).
 Proof. exact check_accepts_model. Qed.
 Print Assumptions C15_monitor_accepts_model.
@@ -277,7 +319,7 @@ Print Assumptions C15_monitor_accepts_model.
 (* non-vacuity: a reachable state with a verified account, and what un-verifies it *)
 Example C15_example_verified :
   verify_identity (cfg_of ex_hdr) (run (cfg_of ex_hdr) (init_of ex_hdr) ex_history) 10%N = Ok tt
-  /\ check (observe_model ex_hdr ex_history) = (0%N, 0%N, 0%N).
+  /\ check (ex_hdr, mt ex_history) = (0%N, 0%N, 0%N).
 Proof. split; [exact ex_verified | exact ex_check_ok]. Qed.
 Example C15_example_oracle_binds :
   forall sch pk m m' sg rid, c_sigok (cfg_of ex_hdr) sch pk m sg rid = true -> c_sigok (cfg_of ex_hdr) sch pk m' sg rid = true -> m = m'.
@@ -299,3 +341,55 @@ Proof.
   exact (conj monitor_rejects_f4 (conj monitor_rejects_delisted (conj monitor_rejects_refusal
         (conj monitor_rejects_stale_confirmation (conj monitor_rejects_stuck_nonce (conj monitor_rejects_stale_key monitor_rejects_lapsed_revocation)))))).
 Qed.
+(* the traces of the adversarial review: answers of direct calls (tampered / expired / keyless claim
+   confirmed by is_claim_valid, validate_claim true for another topic, Verify ok after de-listing, for
+   an unobserved account, Verify refusing a valid account); an issuer whose own getter says "allowed"
+   for a removed / never allowed key; history (nonce reset by a read-only call, revocation lost by a
+   failing call, RemoveIssuer / AddTopic / RemoveClaim / RemoveIdentity returning Ok without effect,
+   a revocation whose flag is not observed); malformed traces (truncated list, empty trace, empty
+   universe) - the number is the index of the item at which the monitor fails *)
+Example C15_monitor_rejects_review :
+  map mon_of
+    [(ex_hdr, set_out (Ok VUnit) (mt (ex_history ++ [IsClaimValid 3%N 2%N 1 101 bad_sig ex_data])));
+     (ex_hdr, set_out (Ok VUnit) (mt (ex_history ++ [Advance 60; IsClaimValid 3%N 2%N 1 101 (ex_pk ++ ex_sig) ex_data])));
+     (ex_hdr, set_out (Ok VUnit) (mt (ex_history ++ [IsClaimValid 4%N 2%N 1 101 (ex_pk ++ ex_sig) ex_data])));
+     (ex_hdr, set_out (Ok (VBool true)) (mt (ex_history ++ [ValidateClaim ex_claim 2 3%N 2%N])));
+     (ex_hdr, set_out (Ok VUnit) (mt (ex_history ++ [RemoveIssuer 0%N 3%N; Verify 10%N])));
+     (ex_hdr, set_out (Ok VUnit) (mt (ex_history ++ [Verify 11%N])));
+     (ex_hdr, set_out Fail (mt ex_history))]
+  = [9%N; 10%N; 9%N; 9%N; 10%N; 9%N; 8%N] /\
+  map mon_of
+    [(ex_hdr, tamper_last (fun o => set_verify (map_cells confirmed_cell o) [true]) (mt (ex_history ++ [RemoveKey 3%N ex_pk 0%N 101 1])));
+     (ex_hdr, tamper_last (fun o => set_verify (map_cells confirmed_cell o) [true]) (mt hist_nokey))]
+  = [9%N; 6%N] /\
+  map mon_of
+    [(ex_hdr, mt (ex_history ++ [Invalidate 3%N 2%N 1]) ++ [(AuthorizedFor 3%N 0%N 1, Ok (VBool true), last_obs ex_history)]);
+     (ex_hdr, mt (ex_history ++ [SetRevoked 3%N 2%N 1 ex_data true]) ++ [(AddTopic 0%N 1, Fail, last_obs ex_history)]);
+     (ex_hdr, mt ex_history ++ [(RemoveIssuer 0%N 3%N, Ok VUnit, last_obs ex_history)]);
+     (ex_hdr, mt ex_history ++ [(AddTopic 0%N 2, Ok VUnit, last_obs ex_history)]);
+     (ex_hdr, mt ex_history ++ [(RemoveClaim 2%N (3%N, 1), Ok VUnit, last_obs ex_history)]);
+     (ex_hdr, mt ex_history ++ [(RemoveIdentity 1%N 10%N, Ok VUnit, last_obs ex_history)]);
+     (hdr_norevq, model_trace hdr_norevq (init_of hdr_norevq) (map (fun k => (k, [])) ex_history) ++
+        [(SetRevoked 3%N 2%N 1 ex_data true, Ok VUnit, observe hdr_norevq (run (cfg_of hdr_norevq) (init_of hdr_norevq) ex_history))])]
+  = [10%N; 10%N; 9%N; 9%N; 9%N; 9%N; 9%N] /\
+  map mon_of
+    [(ex_hdr, tamper_last (fun o => set_verify o []) (mt (ex_history ++ [RemoveIssuer 0%N 3%N])));
+     (ex_hdr, []);
+     (HDR ex_net 50 ex_xdr [] 15 50 50 20 15 [0%N] [1%N] [2%N] [3%N] [] [3%N] [1] [] [], mt ex_history)]
+  = [9%N; 1%N; 1%N].
+Proof.
+  exact (conj monitor_rejects_call_answers (conj monitor_rejects_getter_says_allowed (conj monitor_rejects_history monitor_rejects_malformed))).
+Qed.
+(* completeness is relaxed only for a claim id dangling under a REQUIRED topic at a trusted issuer: a
+   refusal with an unrelated dangling id is rejected; and the documented case where the code is
+   stricter than the text (it refuses an identity that lists such an id, although another issuer's
+   valid claim covers the topic) - both answers are accepted there *)
+Example C15_dangling_ids :
+  (is_ok (verify_identity (cfg_of ex_hdr) (run (cfg_of ex_hdr) (init_of ex_hdr) dangling_unrequired) 10%N) = true /\
+   get_claim_ids_by_topic (get_or ident0 2%N (w_idents (run (cfg_of ex_hdr) (init_of ex_hdr) dangling_unrequired))) 2 = [(4%N, 2)] /\
+   check (ex_hdr, mt dangling_unrequired) = (0%N, 0%N, 0%N) /\
+   mon_of (ex_hdr, tamper_last (fun o => set_verify o [false]) (mt dangling_unrequired)) = 10%N) /\
+  (map (fun it : item => snd (fst it)) (mt dangling_required) =
+     [Ok VUnit; Ok VUnit; Ok VUnit; Ok VUnit; Ok VUnit; Ok VUnit; Ok VUnit; Ok (VCid (3%N, 1)); Ok VUnit; Ok VUnit; Ok VUnit; Fail] /\
+   check (ex_hdr, mt dangling_required) = (0%N, 0%N, 0%N)).
+Proof. exact (conj monitor_rejects_refusal_with_unrelated_dangling_id code_refuses_on_dangling_required_id). Qed.
